@@ -29,6 +29,7 @@ def run(ck, tier):
     _condense(ck, p, byk)
     _quotes_last(ck, p, byk)
     _stale(ck, p, byk)
+    stale_use(ck, p, "R-C02-stale")
     _adjacent(ck, p, byk)
     from . import c04, c05
     c04._byte_lengths(c05._Sub(ck, "R-C02-units", ""), p)
@@ -679,3 +680,119 @@ def _nm(names, x):
     if isinstance(x, tuple):
         return "%s[%s]" % (".".join(x[1]) or "tokens", names.get(x[2], "_%s" % x[2]))
     return names.get(x, "_%s" % x)
+
+
+# ---------------------------------------------------------------------------------------------------
+def stale_use(ck, p, rule):
+    """After a removal (condense_indices / remove_indices) in a Document method, self.tokens is never addressed with an index
+    taken out of a container that was filled with plain pre-removal positions."""
+    def has_sub(origins, depth=0):
+        for o in origins:
+            if o[0] == "bin":
+                if o[1].startswith("Sub"):
+                    return True
+                if depth < 6 and (has_sub(o[2], depth + 1) or has_sub(o[3], depth + 1)):
+                    return True
+            elif o[0] == "agg" and depth < 6:
+                if any(has_sub(x, depth + 1) for x in o[3]):
+                    return True
+            elif o[0] == "call" and depth < 6 and last(norm(o[3] or o[2] or "")) in ("sub", "checked_sub", "saturating_sub", "wrapping_sub"):
+                return True
+        return False
+    methods = [f for f in p.fns.values() if f.name.startswith("harper_core::document::") and f.get("kind") not in ("Closure", "Promoted")]
+    n = 0
+    for f in sorted(methods, key=lambda f: f.name):
+        rem = [(bi, t) for bi, t in f.calls() if method(t) in ("condense_indices", "remove_indices") and
+               (inst_of(t).endswith("document::{impl}::condense_indices") or inst_of(t).endswith("vec_ext::{impl}::remove_indices"))]
+        if not rem:
+            continue
+        n += 1
+        ck.saw(f)
+        cfg = Cfg(f)
+        pv = Prov(f)
+        post = set()
+        for bi, t in rem:
+            work = [t["target"]] if t["target"] is not None else []
+            while work:
+                x = work.pop()
+                if x in post or f.blocks[x]["cleanup"]:
+                    continue
+                post.add(x)
+                work += f.succs(x)
+        # uses of an index into self.tokens after the removal
+        uses = []
+        for bi in sorted(post):
+            b = f.blocks[bi]
+            for sx in b["s"]:
+                if sx["k"] != "assign":
+                    continue
+                for pl in _places_in(sx):
+                    idx = [e[1] for e in pl[1:] if isinstance(e, list) and e[0] == "i"]
+                    if idx and "tokens" in [e[2] for e in pl[1:] if isinstance(e, list) and e[0] == "f"] + list(arg_fields(pv, {"c": [pl[0]]})):
+                        uses.append((bi, sx["ln"], {"c": [idx[0]]}))
+            t = b["t"]
+            if t["k"] == "call" and method(t) in ("get", "get_mut", "index", "index_mut", "get_unchecked", "swap", "remove", "insert") and len(t["args"]) > 1 and "tokens" in arg_fields(pv, t["args"][0]):
+                uses.append((bi, t["ln"], t["args"][1]))
+        key = keyname(p, f) + ":after-removal"
+        bad = None
+        for bi, ln, op in uses:
+            for o in arg_roots(f, pv, op):
+                if o[0] != "call" or o[1] in post:
+                    continue
+                ct = f.blocks[o[1]]["t"]
+                dty = f.local_tystr(ct["dest"][0]) if ct.get("dest") else ""
+                if not re.search(r"Vec<|VecDeque<|SmallVec<", dty):
+                    continue
+                cont = ct["dest"][0]
+                # what is pushed into that container before the removal
+                plain = False
+                for pb, pt in f.calls():
+                    if pb in post or method(pt) not in ("push", "push_back", "insert", "extend") or len(pt["args"]) < 2:
+                        continue
+                    base = {x[1] for x in flatten(pv.trace_operand(pt["args"][0])) if x[0] == "call"}
+                    if o[1] not in base and not _refers(f, pv, pt["args"][0], cont):
+                        continue
+                    if not has_sub(pv.trace_operand(pt["args"][1])):
+                        plain = True
+                if plain:
+                    bad = (ln, names_of(f).get(cont, "_%d" % cont), ct["ln"])
+        if bad:
+            ck.refuted(rule, key, f.loc(bad[0]), "self.tokens is addressed after the removal with an index taken from `%s` (created at line %d, filled with plain positions counted before the removal): every token the removal took out in front of it shifts the real position, so from the second hit on the wrong token is read or written" % (bad[1], bad[2]))
+        else:
+            ck.proved(rule, key, f.span, "%d use(s) of an index into self.tokens after the removal, none taken from a container of pre-removal positions" % len(uses))
+    ck.floor(rule, "Document methods with a removal", n, 4)
+
+
+def names_of(f):
+    return f.debug_names()
+
+
+def _refers(f, pv, op, local):
+    pl = place_of(op)
+    if not pl:
+        return False
+    if pl[0] == local:
+        return True
+    for (b2, si, kind, x) in pv.defs.get(pl[0], []):
+        if "rv" in x and x["rv"]["k"] == "ref" and x["rv"]["place"][0] == local:
+            return True
+    return False
+
+
+def _places_in(sx):
+    out = []
+
+    def walk(o):
+        if isinstance(o, dict):
+            for k in ("c", "m", "place"):
+                if k in o and isinstance(o[k], list) and o[k] and isinstance(o[k][0], int):
+                    out.append(o[k])
+            for v in o.values():
+                walk(v)
+        elif isinstance(o, list):
+            for v in o:
+                walk(v)
+    walk(sx.get("rv"))
+    if isinstance(sx.get("lhs"), list):
+        out.append(sx["lhs"])
+    return out
